@@ -1592,7 +1592,14 @@ func genSysState(t *rapid.T) sysState {
 		nroutes = rapid.IntRange(4, 16).Draw(t, "nrouteslarge")
 	}
 	for i, n := 0, nroutes; i < n; i++ {
-		st.Routes = append(st.Routes, system.Route{Prefix: netip.MustParsePrefix(rapid.SampledFrom(rts).Draw(t, "route")), Index: 1})
+		rt := system.Route{Prefix: netip.MustParsePrefix(rapid.SampledFrom(rts).Draw(t, "route")), Index: 1}
+		if rapid.IntRange(0, 2).Draw(t, "rtattrs") == 0 {
+			// what else the kernel says about a route has no bearing on the RA: the same destination listed again
+			// with another metric, preference or (second loopback interface) index is still one destination
+			rt.Index = rapid.SampledFrom([]int{1, 2, 17, 70000}).Draw(t, "rtindex")
+			rt.Preference = rapid.SampledFrom([]ndp.Preference{ndp.Medium, ndp.High, ndp.Low}).Draw(t, "rtpref")
+		}
+		st.Routes = append(st.Routes, rt)
 	}
 	if rapid.IntRange(0, 3).Draw(t, "mac") != 0 {
 		st.MAC = rapid.SliceOfN(rapid.Byte(), 6, 6).Draw(t, "macbytes")
